@@ -18,7 +18,7 @@ CONSTANTS RootCat,    \* category of the top-level list items
 VARIABLES todo, choices, done
 gvars == <<todo, choices, done>>
 
-Usable(v) == /\ Variants[v].fam \in (IF Family = "7" THEN {"both", "7", "7g"} ELSE {"both", Family})
+Usable(v) == /\ Variants[v].fam \in (IF Family = "7" THEN {"both", "7", "7g"} ELSE IF Family = "73" THEN {"both", "7", "7g", "73"} ELSE {"both", Family})
              /\ (Allowed = {} \/ Variants[v].id \in Allowed)
 
 \* pending child requests of a (kind, fill) in source order (= schema order), inline nodes expanded
@@ -29,8 +29,8 @@ ItemOf(x) == CASE x.f \in {"ch", "ls"} -> <<x>>
                [] OTHER -> <<>>
 SqItems(items, i) == IF i > Len(items) THEN <<>> ELSE ItemOf(items[i]) \o SqItems(items, i + 1)
 ItemsFrom(kind, fill, i) ==
-   IF i > Len(Schema[kind]) THEN <<>>
-   ELSE (IF Schema[kind][i][1] \in DOMAIN fill THEN ItemOf(fill[Schema[kind][i][1]]) ELSE <<>>) \o ItemsFrom(kind, fill, i + 1)
+   IF i > Len(SchemaX[kind]) THEN <<>>
+   ELSE (IF SchemaX[kind][i][1] \in DOMAIN fill THEN ItemOf(fill[SchemaX[kind][i][1]]) ELSE <<>>) \o ItemsFrom(kind, fill, i + 1)
 Items(kind, fill) == ItemsFrom(kind, fill, 1)
 
 VItems == [v \in 1 .. NV |-> Items(Variants[v].kind, Variants[v].fill)]     \* evaluated once
